@@ -35,6 +35,10 @@ def main(argv):
         _, pid, sub, shard, tier, seed, out = argv
         core.worker_main(pid, sub, int(shard), tier, int(seed), out)
         return 0
+    if argv and argv[0] == "--replay-worker":
+        _, pid, path, out = argv
+        core.replay_worker(pid, path, out)
+        return 0
     if argv and argv[0] == "--corpus-worker":
         _, pid, out = argv
         core.corpus_worker(pid, out)
